@@ -80,13 +80,19 @@ Lemma len_concat {A} nc (M : list (list A)) : Forall (fun r => len r = nc) M -> 
 Proof. induction 1; cbn [concat]. reflexivity. rewrite len_app, IHForall, H. unfold len. cbn [length]. rewrite Nat2Z.inj_succ. ring. Qed.
 
 Definition rect {A} (M : list (list A)) : Prop := 0 < ncols M /\ Forall (fun r => len r = ncols M) M.
-Theorem dec_enc_mat_num (M : list (list qi)) : rect M -> dec_mat (enc_mat (MNum M)) = Some (MNum M).
+Theorem dec_enc_mat_num cf (M : list (list qi)) : rect M -> dec_mat (enc_mat cf (MNum M)) = Some (MNum M).
 Proof.
   intros [Hc HM]. unfold dec_mat, enc_mat. cbn [wm_data wm_rows wm_cols].
   rewrite (len_concat (ncols M)) by exact HM. rewrite Z.eqb_refl. rewrite chunk_concat; auto.
 Qed.
-(* the symbolic branch scrambles every matrix that is not a single row / column *)
-Theorem dec_enc_mat_sym_refuted : exists M, rect M /\ dec_mat (enc_mat (MSym M)) <> Some (MSym M).
+(* symbolic matrices are now written in the order they are read back (fde9e721) *)
+Theorem dec_enc_mat_sym (M : list (list str)) : rect M -> dec_mat (enc_mat cfg_now (MSym M)) = Some (MSym M).
+Proof.
+  intros [Hc HM]. unfold dec_mat, enc_mat. cbn [wm_data wm_rows wm_cols fix_symm cfg_now].
+  rewrite (len_concat (ncols M)) by exact HM. rewrite Z.eqb_refl. rewrite chunk_concat; auto.
+Qed.
+(* before the repair the symbolic branch scrambled every matrix that is not a single row / column *)
+Theorem dec_enc_mat_sym_refuted_old_code : exists M, rect M /\ dec_mat (enc_mat cfg_old (MSym M)) <> Some (MSym M).
 Proof. exists [[[120]; [121]]; [[122]; [116]]]. split. split. reflexivity. repeat constructor. vm_compute. discriminate. Qed.
 
 (* ------------------------------------------------------------------ sparse / dense maps (noise model, detectors) *)
@@ -332,14 +338,15 @@ Definition is_sub (c : comp) : bool := match c with CSub _ _ _ => true | _ => fa
 Section Comps.
 Variable ev : str -> Qc.
 Variable env : str -> option Qc.
+Notation cf := cfg_now.
 
 (* well-formed components: arities, consistent parameter values (every use of a name sees the one object of that name),
-   an Expression object is not used twice inside one component, Unitary with default name and no polarisation,
+   an Expression object is not used twice inside one component, a polarised Unitary has an even number of rows,
    every item of a circuit is unitary and fits; names are non-empty *)
 Fixpoint wf_comp (c : comp) : Prop :=
   match c with
   | CLeaf k ps => length ps = arity k /\ Forall (wf_param env) ps /\ nodupb (expr_names (map inj_param ps)) = true
-  | CUnit u n pol => n = UNITARY /\ pol = false /\ rect u
+  | CUnit u n pol => n <> [] /\ rect u /\ (pol = true -> Z.even (len u) = true)
   | CSub n m items => n <> [] /\
       (fix all (l : list (Z * comp)) : Prop :=
          match l with
@@ -356,35 +363,12 @@ Fixpoint wf_items (m : Z) (l : list (Z * comp)) : Prop :=
 Lemma wf_Sub n m items : wf_comp (CSub n m items) <-> n <> [] /\ wf_items m items.
 Proof. cbn [wf_comp]. split; intros [H1 H2]; split; auto; clear H1; induction items as [|[o c] r IH]; cbn [wf_items] in *; tauto. Qed.
 
-(* the complement of the `params or dict()` defect: a nested circuit that uses variable parameters is only decoded
-   after an earlier plain component of the same circuit has put a parameter into the shared name table *)
-Fixpoint share_ok (c : comp) : Prop :=
-  match c with
-  | CSub _ _ items =>
-      (fix go (seen : bool) (l : list (Z * comp)) : Prop :=
-         match l with
-         | [] => True
-         | (_, c') :: r => (share_ok c' /\ (is_sub c' = true -> has_var c' = true -> seen = true))
-                           /\ go (seen || (negb (is_sub c') && has_var c')) r
-         end) false items
-  | _ => True
-  end.
-Fixpoint share_items (seen : bool) (l : list (Z * comp)) : Prop :=
-  match l with
-  | [] => True
-  | (_, c') :: r => (share_ok c' /\ (is_sub c' = true -> has_var c' = true -> seen = true))
-                    /\ share_items (seen || (negb (is_sub c') && has_var c')) r
-  end.
-Lemma share_Sub n m items : share_ok (CSub n m items) <-> share_items false items.
-Proof. cbn [share_ok]. generalize false. induction items as [|[o c] r IH]; intros b; cbn [share_items]. tauto.
-  rewrite <- IH. tauto. Qed.
-
 Definition injitem (oc : Z * comp) : Z * dcomp := match oc with (o, c') => (o, inj c') end.
-Definition encitem (oc : Z * comp) : wcomp := match oc with (o, c') => enc_comp ev o c' end.
+Definition encitem (oc : Z * comp) : wcomp := match oc with (o, c') => enc_comp cf ev o c' end.
 
 Lemma dwidth_inj c : dwidth (inj c) = width c.
 Proof. destruct c as [k ps|p|u n pol| |m v|n m items]; try reflexivity. destruct k; reflexivity. Qed.
-Lemma start_of_enc o c : start_of (enc_comp ev o c) = o. Proof. destruct c; reflexivity. Qed.
+Lemma start_of_enc o c : start_of (enc_comp cf ev o c) = o. Proof. destruct c; reflexivity. Qed.
 
 Lemma pvars_root p o : In o (pvars (inj_param p)) -> o_scope o = [].
 Proof. destruct p as [v|n v|e subs]; simpl. tauto. intros [<-|[]]. reflexivity.
@@ -420,98 +404,79 @@ Lemma dec_items_cons dec pos w r k : dec_items dec pos (w :: r) k =
   | None => None
   end.
 Proof. reflexivity. Qed.
-Lemma dec_comp_sub path sc s nm name n_mode items k : dec_comp path sc (WSub s nm name n_mode items) k =
-  match dec_items (fun pos w' k' => dec_comp (pos :: path) (if is_nil k then path else sc) w' k') 0 items k with
-  | Some (ds, k') =>
-      if build n_mode ds [] then Some (DSub (if truthy name then name else CPLX) n_mode ds, if is_nil k then [] else k')
-      else None
+(* the repaired builder: a nested circuit always works on the caller's name table *)
+Lemma dec_comp_sub path sc s nm name n_mode items k : dec_comp cf path sc (WSub s nm name n_mode items) k =
+  match dec_items (fun pos w' k' => dec_comp cf (pos :: path) sc w' k') 0 items k with
+  | Some (ds, k') => if build n_mode ds [] then Some (DSub (if truthy name then name else CPLX) n_mode ds, k') else None
   | None => None
   end.
 Proof. reflexivity. Qed.
 Lemma enc_comp_sub start n m items :
-  enc_comp ev start (CSub n m items) = WSub start m (if str_eqb n CPLX then [] else n) m (map encitem items).
+  enc_comp cf ev start (CSub n m items) = WSub start m (if str_eqb n CPLX then [] else n) m (map encitem items).
 Proof. reflexivity. Qed.
-Lemma name_roundtrip (n : str) : n <> [] ->
-  (if truthy (if str_eqb n CPLX then [] else n) then (if str_eqb n CPLX then [] else n) else CPLX) = n.
-Proof. intros H. destruct (str_eqb n CPLX) eqn:E. apply str_eqb_eq in E. subst. reflexivity. rewrite truthy_ne by exact H. reflexivity. Qed.
+Lemma name_roundtrip (d n : str) : n <> [] ->
+  (if truthy (if str_eqb n d then [] else n) then (if str_eqb n d then [] else n) else d) = n.
+Proof. intros H. destruct (str_eqb n d) eqn:E. apply str_eqb_eq in E. subst. reflexivity. rewrite truthy_ne by exact H. reflexivity. Qed.
 
-Definition St (c : comp) : Prop := wf_comp c -> share_ok c -> forall path sc start k, table_ok env k ->
-  (has_var c = true -> sc = [] /\ (is_sub c = true -> k <> [])) ->
-  exists k', dec_comp path sc (enc_comp ev start c) k = Some (inj c, k') /\ table_ok env k' /\ grows k k'
-     /\ (is_sub c = false -> has_var c = true -> k' <> []) /\ (has_var c = false -> k' = k).
+Definition St (c : comp) : Prop := wf_comp c -> forall path sc start k, table_ok env k ->
+  (has_var c = true -> sc = []) ->
+  exists k', dec_comp cf path sc (enc_comp cf ev start c) k = Some (inj c, k') /\ table_ok env k'
+             /\ (has_var c = false -> k' = k).
 
 Lemma wf_items_weak m items : wf_items m items -> Forall (fun oc => wf_comp (snd oc)) items.
 Proof. induction items as [|[o c] r IH]; cbn [wf_items]; constructor; tauto. Qed.
-Lemma items_ok items : Forall (fun oc => St (snd oc)) items -> forall path sc' pos k seen,
-  Forall (fun oc => wf_comp (snd oc)) items -> share_items seen items -> table_ok env k -> (seen = true -> k <> []) ->
+Lemma items_ok items : Forall (fun oc => St (snd oc)) items -> forall path sc' pos k,
+  Forall (fun oc => wf_comp (snd oc)) items -> table_ok env k ->
   (existsb (hv has_var) items = true -> sc' = []) ->
-  exists k', dec_items (fun pos w' k' => dec_comp (pos :: path) sc' w' k') pos (map encitem items) k
+  exists k', dec_items (fun pos w' k' => dec_comp cf (pos :: path) sc' w' k') pos (map encitem items) k
              = Some (map injitem items, k')
-    /\ table_ok env k' /\ grows k k' /\ (existsb (hv has_var) items = false -> k' = k).
+    /\ table_ok env k' /\ (existsb (hv has_var) items = false -> k' = k).
 Proof.
-  induction 1 as [|[o c] r Hc Hr IH]; intros path sc' pos k seen Hw Hs Hk Hseen Hsc.
+  induction 1 as [|[o c] r Hc Hr IH]; intros path sc' pos k Hw Hk Hsc.
   - exists k. rewrite dec_items_nil. spl; auto.
-  - inversion Hw as [|? ? Hwc Hwr]; subst. cbn [snd] in Hwc. cbn [share_items] in Hs. destruct Hs as [(Hsc1 & Hsc2) Hsr].
-    cbn [snd] in Hc. cbn [existsb] in Hsc.
-    destruct (Hc Hwc Hsc1 (pos :: path) sc' o k Hk) as (k1 & E1 & T1 & G1 & V1 & F1).
-    { intros Hv. split. apply Hsc. rewrite Hv. reflexivity. intros Hsub. apply Hseen. apply Hsc2; assumption. }
-    destruct (IH path sc' (S pos) k1 (seen || (negb (is_sub c) && has_var c)) Hwr Hsr T1) as (k2 & E2 & T2 & G2 & F2).
-    { intros H. apply orb_true_iff in H. destruct H as [H|H]. apply G1. auto.
-      apply andb_true_iff in H. destruct H as [Ha Hb]. apply negb_true_iff in Ha. apply V1; assumption. }
+  - inversion Hw as [|? ? Hwc Hwr]; subst. cbn [snd] in Hwc, Hc. cbn [existsb] in Hsc.
+    destruct (Hc Hwc (pos :: path) sc' o k Hk) as (k1 & E1 & T1 & F1).
+    { intros Hv. apply Hsc. rewrite Hv. reflexivity. }
+    destruct (IH path sc' (S pos) k1 Hwr T1) as (k2 & E2 & T2 & F2).
     { intros H. apply Hsc. rewrite H. apply orb_true_r. }
     exists k2. cbn [map encitem injitem]. rewrite dec_items_cons, E1, E2, start_of_enc. spl; auto.
-    + intros H. apply G2, G1, H.
-    + cbn [existsb]. intros H. apply orb_false_iff in H. destruct H as [H1 H2]. rewrite F2, F1; auto.
+    cbn [existsb]. intros H. apply orb_false_iff in H. destruct H as [H1 H2]. rewrite F2, F1; auto.
 Qed.
 
 Lemma St_all c : St c.
 Proof.
-  induction c as [kd ps|p|u n pol| |m v|n m items IH] using comp_ind'; intros Hw Hs path sc start k Hk Hv.
-  - destruct Hw as (Ha & Hps & Hnd). cbn [enc_comp dec_comp inj has_var is_sub] in *.
+  induction c as [kd ps|p|u n pol| |m v|n m items IH] using comp_ind'; intros Hw path sc start k Hk Hv.
+  - destruct Hw as (Ha & Hps & Hnd). cbn [enc_comp dec_comp inj has_var] in *.
     destruct (existsb pvar_b ps) eqn:Ev.
-    + destruct (Hv eq_refl) as [-> _]. destruct (dec_kind_ok ev env kd ps k Ha Hps Hk) as (k' & E & T & G & V & F).
+    + rewrite (Hv eq_refl). destruct (dec_kind_ok ev env kd ps k Ha Hps Hk) as (k' & E & T & G & V & F).
       exists k'. rewrite E, Hnd, wkind_idem. spl; auto. discriminate.
-    + exists k. rewrite (dec_kind_fix ev sc kd ps k Ha Ev), Hnd, wkind_idem. spl; auto. discriminate.
-  - exists k. cbn. spl; auto. discriminate.
-  - destruct Hw as (-> & -> & Hr). exists k. cbn [enc_comp dec_comp]. rewrite dec_enc_mat_num by exact Hr.
-    cbn. spl; auto. discriminate.
-  - exists k. cbn. spl; auto. discriminate.
-  - exists k. cbn. spl; auto. discriminate.
-  - apply wf_Sub in Hw. destruct Hw as [Hn Hwi]. apply share_Sub in Hs.
+    + exists k. rewrite (dec_kind_fix ev sc kd ps k Ha Ev), Hnd, wkind_idem. spl; auto.
+  - exists k. cbn. spl; auto.
+  - destruct Hw as (Hn & Hr & Hev). exists k. cbn [enc_comp dec_comp]. rewrite dec_enc_mat_num by exact Hr.
+    cbn [fix_unitary cf].
+    assert (Ep : pol && negb (Z.even (len u)) = false) by (destruct pol; [rewrite (Hev eq_refl)|]; reflexivity).
+    rewrite Ep. cbn [inj has_var]. destruct (str_eqb n UNITARY) eqn:E.
+    + apply str_eqb_eq in E. subst n. cbn [truthy]. spl; auto.
+    + rewrite (truthy_ne n Hn). spl; auto.
+  - exists k. cbn. spl; auto.
+  - exists k. cbn. spl; auto.
+  - apply wf_Sub in Hw. destruct Hw as [Hn Hwi].
     rewrite enc_comp_sub, dec_comp_sub. change (has_var (CSub n m items)) with (existsb (hv has_var) items) in *.
-    change (inj (CSub n m items)) with (DSub n m (map injitem items)). cbn [is_sub] in *.
-    destruct (existsb (hv has_var) items) eqn:Ev.
-    + destruct (Hv eq_refl) as [-> Hkne]. specialize (Hkne eq_refl). destruct k as [|x k0]. congruence. cbn [is_nil].
-      assert (A1 : false = true -> x :: k0 <> []) by discriminate.
-      assert (A2 : existsb (hv has_var) items = true -> @nil nat = []) by reflexivity.
-      destruct (items_ok items IH path [] 0%nat (x :: k0) false (wf_items_weak m items Hwi) Hs Hk A1 A2) as (k' & E & T & G & F).
-      rewrite E. rewrite (build_ok m items [] Hwi) by (intros ? []). rewrite name_roundtrip by exact Hn.
-      exists k'. spl; auto; discriminate.
-    + assert (A1 : false = true -> k <> []) by discriminate.
-      assert (A2 : forall s' : list nat, existsb (hv has_var) items = true -> s' = []) by (intros s' H; rewrite Ev in H; discriminate).
-      destruct k as [|x k0]; cbn [is_nil].
-      * destruct (items_ok items IH path path 0%nat [] false (wf_items_weak m items Hwi) Hs Hk A1 (A2 path)) as (k' & E & T & G & F).
-        rewrite E. rewrite (build_ok m items [] Hwi) by (intros ? []). rewrite name_roundtrip by exact Hn.
-        exists []. spl; auto; try discriminate.
-      * destruct (items_ok items IH path sc 0%nat (x :: k0) false (wf_items_weak m items Hwi) Hs Hk A1 (A2 sc)) as (k' & E & T & G & F).
-        rewrite E. rewrite (build_ok m items [] Hwi) by (intros ? []). rewrite name_roundtrip by exact Hn.
-        rewrite (F Ev). exists (x :: k0). spl; auto; try discriminate.
+    change (inj (CSub n m items)) with (DSub n m (map injitem items)).
+    destruct (items_ok items IH path sc 0%nat k (wf_items_weak m items Hwi) Hk Hv) as (k' & E & T & F).
+    rewrite E. rewrite (build_ok m items [] Hwi) by (intros ? []). exists k'. destruct (str_eqb n CPLX) eqn:En.
+    + apply str_eqb_eq in En. subst n. cbn [truthy]. spl; auto.
+    + rewrite (truthy_ne n Hn). spl; auto.
 Qed.
 
-(* the round trip of a circuit: deserialize_circuit(serialize_circuit(c)) is c with every use of a parameter name bound
-   to the one object of the root name table *)
-Theorem dec_enc_circuit n m items : wf_comp (CSub n m items) -> share_ok (CSub n m items) ->
-  dec_circuit (enc_circuit ev (CSub n m items)) = Some (inj (CSub n m items)).
+(* the round trip of a circuit (current code): deserialize_circuit(serialize_circuit(c)) is c, for every nesting depth,
+   with every use of a parameter name bound to the one object of the root name table *)
+Theorem dec_enc_circuit n m items : wf_comp (CSub n m items) ->
+  dec_circuit cf (enc_circuit cf ev (CSub n m items)) = Some (inj (CSub n m items)).
 Proof.
-  intros Hw Hs. unfold enc_circuit, dec_circuit. cbn [wrap]. rewrite enc_comp_sub, dec_comp_sub. cbn [is_nil].
-  apply wf_Sub in Hw. destruct Hw as [Hn Hwi]. apply share_Sub in Hs.
-  destruct (items_ok items) with (path := @nil nat) (sc' := @nil nat) (pos := 0%nat) (k := @nil (str * pobj)) (seen := false)
-    as (k' & E & T & G & F); auto.
-  - apply Forall_forall. intros oc _. apply St_all.
-  - apply (wf_items_weak m). exact Hwi.
-  - apply table_ok_nil.
-  - discriminate.
-  - rewrite E. rewrite (build_ok m items [] Hwi) by (intros ? []). rewrite name_roundtrip by exact Hn. reflexivity.
+  intros Hw. unfold enc_circuit, dec_circuit. cbn [wrap].
+  destruct (St_all (CSub n m items) Hw [] [] 0 [] (table_ok_nil env) (fun _ => eq_refl)) as (k' & E & _).
+  rewrite enc_comp_sub in *. rewrite E. reflexivity.
 Qed.
 End Comps.
 
@@ -548,9 +513,10 @@ Proof.
   rewrite S by (apply sparse_vals; exact Hw). rewrite <- Hn. unfold len. rewrite Nat2Z.id. rewrite dense_sparse. reflexivity.
 Qed.
 
-Theorem enc_filter_roundtrip (f : option Z) : (match f with Some n => n <> 0 /\ n <> VALUE_NOT_SET | None => True end) ->
-  (if enc_filter f =? VALUE_NOT_SET then None else Some (enc_filter f)) = f.
-Proof. destruct f as [n|]; cbn [enc_filter]. intros [H0 H1]. replace (n =? 0) with false by (symmetry; apply Z.eqb_neq; exact H0).
+(* the filter value survives, zero included (43c33bac); only the sentinel itself is unrepresentable *)
+Theorem enc_filter_roundtrip (f : option Z) : (match f with Some n => n <> VALUE_NOT_SET | None => True end) ->
+  (if enc_filter cfg_now f =? VALUE_NOT_SET then None else Some (enc_filter cfg_now f)) = f.
+Proof. destruct f as [n|]; cbn [enc_filter fix_filter cfg_now negb andb]. intros H1.
   replace (n =? VALUE_NOT_SET) with false by (symmetry; apply Z.eqb_neq; exact H1). reflexivity. reflexivity. Qed.
 
 Lemma map_dec_enc_ports (l : list (Z * aport)) : Forall (fun mp => wf_aport (snd mp)) l ->
@@ -564,7 +530,7 @@ Variable env : str -> option Qc.
 
 Record wf_exp (e : experiment) : Prop := mk_wf_exp {
   wx_name : e_name e <> [];
-  wx_filter : match e_filter e with Some n => n <> 0 /\ n <> VALUE_NOT_SET | None => True end;     (* filter 0 excluded *)
+  wx_filter : match e_filter e with Some n => n <> VALUE_NOT_SET | None => True end;             (* 0 is fine now *)
   wx_noise : match e_noise e with Some n => length n = 7%nat | None => True end;
   wx_dets_len : len (e_dets e) = e_moi e + e_nher e;
   wx_dets : Forall (fun o => match o with Some d => wf_idet d | None => True end) (e_dets e);
@@ -577,7 +543,6 @@ Record wf_exp (e : experiment) : Prop := mk_wf_exp {
   wx_heralds : forallb herald_ok (filter (fun mp => is_herald (snd mp)) (e_in e)) = true;
   wx_nher : e_nher e = len (filter (fun mp => is_herald (snd mp)) (e_in e));   (* heralds were added with add_herald *)
   wx_comps : Forall (fun oc => wf_comp env (snd oc)) (e_comps e);
-  wx_share : share_items false (e_comps e);
   wx_fits : forallb (exp_fits (e_moi e + e_nher e)) (map injitem (e_comps e)) = true }.
 
 (* what the round trip of a well-formed experiment gives: every field as it was, the distribution input on the text
@@ -596,9 +561,9 @@ Lemma sv_sizes_enc n d : sv_sizes_ok n (enc_svd d) = sv_sizes_ok n d.
 Proof. unfold sv_sizes_ok, enc_svd. rewrite forallb_map'. apply forallb_ext'. intros [v p]. cbn [fst]. unfold enc_sv.
   rewrite forallb_map'. apply forallb_ext'. intros [[r i] b]. reflexivity. Qed.
 
-Theorem dec_enc_exp e : wf_exp e -> dec_exp (enc_exp ev e) = Some (expected_exp e).
+Theorem dec_enc_exp e : wf_exp e -> dec_exp cfg_now (enc_exp cfg_now ev e) = Some (expected_exp e).
 Proof.
-  intros [Hname Hfilter Hnoise Hdl Hdets Hinput Hin Hout Hher Hnher Hcomps Hshare Hfits].
+  intros [Hname Hfilter Hnoise Hdl Hdets Hinput Hin Hout Hher Hnher Hcomps Hfits].
   unfold dec_exp, enc_exp. cbn [we_nmode we_input we_dets we_comps we_in we_out we_name we_noise we_filter we_post].
   set (n := e_moi e + e_nher e) in *.
   assert (EI : match option_map enc_input (e_input e) with
@@ -608,11 +573,10 @@ Proof.
     - rewrite sv_sizes_enc, Hinput. reflexivity. }
   rewrite EI. rewrite (dec_enc_dets (e_dets e) n Hdl Hdets).
   destruct (items_ok ev env (e_comps e)) with (path := @nil nat) (sc' := @nil nat) (pos := 0%nat) (k := @nil (str * pobj))
-    (seen := false) as (k' & E & T & G & F); auto.
+    as (k' & E & T & F); auto.
   { apply Forall_forall. intros oc _. apply St_all. }
   { apply table_ok_nil. }
-  { discriminate. }
-  replace (map (fun oc : Z * comp => enc_comp ev (fst oc) (snd oc)) (e_comps e)) with (map (encitem ev) (e_comps e))
+  replace (map (fun oc : Z * comp => enc_comp cfg_now ev (fst oc) (snd oc)) (e_comps e)) with (map (encitem ev) (e_comps e))
     by (apply map_ext; intros [o c]; reflexivity).
   rewrite E. rewrite !map_dec_enc_ports by assumption. rewrite Hher, Hfits. cbn [andb].
   rewrite truthy_ne by exact Hname. rewrite enc_filter_roundtrip by exact Hfilter.
@@ -662,73 +626,69 @@ Fixpoint exp_value (v : value) : dvalue :=
   | VDict l => DVDict (map (fun kv => match kv with (a, b) => (exp_value a, exp_value b) end) l)
   end.
 
-(* [dets]: detectors are allowed at this position (only in a top-level call without the `compress` keyword) *)
-Fixpoint wfv (dets : bool) (v : value) : Prop :=
+Fixpoint wfv (v : value) : Prop :=
   match v with
-  | VCircuit c => wf_comp env (wrap c) /\ share_ok (wrap c)
+  | VCircuit c => wf_comp env (wrap c)
   | VComponent c => match c with CLeaf _ _ => wf_comp env c | _ => False end
   | VExperiment e => wf_exp env e
   | VHerald v u => wf_aport (AHerald v u)
   | VMatrix (MNum r) => rect r
-  | VMatrix (MSym _) => False
+  | VMatrix (MSym r) => rect r
   | VNoise n => length n = 7%nat
-  | VDet d => dets = true /\ wf_det d
-  | VPPNR n l r => dets = true /\ wf_idet (IPPNR n l r)
-  | VList l => (fix all (l : list value) : Prop := match l with [] => True | x :: r => wfv false x /\ all r end) l
+  | VDet d => wf_det d
+  | VPPNR n l r => wf_idet (IPPNR n l r)
+  | VList l => (fix all (l : list value) : Prop := match l with [] => True | x :: r => wfv x /\ all r end) l
   | VDict l => (fix all (l : list (value * value)) : Prop :=
-                  match l with [] => True | (a, b) :: r => (wfv false a /\ wfv false b) /\ all r end) l
+                  match l with [] => True | (a, b) :: r => (wfv a /\ wfv b) /\ all r end) l
   | _ => True
   end.
-Definition is_default (cm : callmode) : bool := match cm with CDefault => true | CKw _ => false end.
 Definition G (cm : callmode) (v : value) : Prop :=
-  exists w, enc_value ev cm v = Some w /\ dec_wire w = Some (exp_value v).
+  exists w, enc_value cfg_now ev cm v = Some w /\ dec_wire cfg_now w = Some (exp_value v).
 
 Lemma wrap_sub c : exists n m items, wrap c = CSub n m items.
 Proof. destruct c; cbn [wrap]; eauto. Qed.
 Lemma wrap_idem c : wrap (wrap c) = wrap c. Proof. destruct c; reflexivity. Qed.
 
-Lemma G_leaf v cm : is_container v = false -> wfv (is_default cm) v -> G cm v.
+Lemma G_leaf v cm : is_container v = false -> wfv v -> G cm v.
 Proof.
   intros Hc Hw. unfold G. destruct v; try discriminate; cbn [enc_value exp_value wfv] in *;
     try (eexists; split; [reflexivity|reflexivity]).
-  - destruct Hw as [Hw Hs]. eexists. split. reflexivity. cbn [dec_wire dec_payload].
+  - eexists. split. reflexivity. cbn [dec_wire dec_payload].
     destruct (wrap_sub c) as (n & m & items & E). unfold enc_circuit. rewrite E in *.
-    change (enc_comp ev 0 (CSub n m items)) with (enc_circuit ev (CSub n m items)).
-    rewrite (dec_enc_circuit ev env n m items Hw Hs). reflexivity.
+    change (enc_comp cfg_now ev 0 (CSub n m items)) with (enc_circuit cfg_now ev (CSub n m items)).
+    rewrite (dec_enc_circuit ev env n m items Hw). reflexivity.
   - destruct c as [k ps| | | | |]; try tauto. eexists. split. reflexivity. cbn [dec_wire dec_payload]. unfold dec_component.
-    destruct (St_all ev env (CLeaf k ps) Hw Logic.I [] [] 0 [] (table_ok_nil env)) as (k' & E & _).
-    { intros _. split. reflexivity. discriminate. }
+    destruct (St_all ev env (CLeaf k ps) Hw [] [] 0 [] (table_ok_nil env) (fun _ => eq_refl)) as (k' & E & _).
     rewrite E. reflexivity.
   - eexists. split. reflexivity. cbn [dec_wire dec_payload]. rewrite (dec_enc_exp ev env e Hw). reflexivity.
   - eexists. split. reflexivity. cbn [dec_wire dec_payload]. rewrite dec_enc_aport by exact Hw. reflexivity.
-  - destruct m as [r|r]; try tauto. eexists. split. reflexivity. cbn [dec_wire dec_payload]. rewrite dec_enc_mat_num by exact Hw.
-    reflexivity.
+  - destruct m as [r|r]; eexists; (split; [reflexivity|]); cbn [dec_wire dec_payload].
+    rewrite dec_enc_mat_num by exact Hw. reflexivity. rewrite dec_enc_mat_sym by exact Hw. reflexivity.
   - eexists. split. reflexivity. cbn [dec_wire dec_payload]. destruct (enc_bss l) as [ks o] eqn:E. cbn [fst snd].
     rewrite <- E. rewrite dec_enc_bss. reflexivity.
   - eexists. split. reflexivity. cbn [dec_wire dec_payload]. rewrite dec_enc_noise by exact Hw. reflexivity.
-  - destruct Hw as [Hd Hw]. destruct cm; try discriminate. eexists. split. reflexivity. cbn [dec_wire dec_payload].
-    rewrite dec_enc_det by exact Hw. reflexivity.
-  - destruct Hw as [Hd Hw]. destruct cm; try discriminate. eexists. split. reflexivity. cbn [dec_wire dec_payload].
-    change (WIPPNR name layers r) with (enc_idet (IPPNR name layers r)). rewrite dec_enc_idet by exact Hw. reflexivity.
+  - destruct cm; eexists; (split; [reflexivity|]); cbn [dec_wire dec_payload]; rewrite dec_enc_det by exact Hw; reflexivity.
+  - destruct cm; eexists; (split; [reflexivity|]); cbn [dec_wire dec_payload];
+      change (WIPPNR name layers r) with (enc_idet (IPPNR name layers r)); rewrite dec_enc_idet by exact Hw; reflexivity.
 Qed.
 
 Lemma G_list c l : Forall (G c) l ->
-  exists ws, seq_opt (map (enc_value ev c) l) = Some ws /\ seq_opt (map dec_wire ws) = Some (map exp_value l).
+  exists ws, seq_opt (map (enc_value cfg_now ev c) l) = Some ws /\ seq_opt (map (dec_wire cfg_now) ws) = Some (map exp_value l).
 Proof. induction 1 as [|x r (w & E1 & E2) Hr (ws & F1 & F2)]. exists []. split; reflexivity.
   exists (w :: ws). cbn [map seq_opt]. rewrite E1, F1. cbn [map seq_opt]. rewrite E2, F2. split; reflexivity. Qed.
 Lemma G_dict c l : Forall (fun kv => G c (fst kv) /\ G c (snd kv)) l ->
-  exists ws, seq_opt (map (fun kv => match kv with (a, b) => pair_opt (enc_value ev c a) (enc_value ev c b) end) l) = Some ws
-    /\ seq_opt (map (fun kv => match kv with (a, b) => pair_opt (dec_wire a) (dec_wire b) end) ws)
+  exists ws, seq_opt (map (fun kv => match kv with (a, b) => pair_opt (enc_value cfg_now ev c a) (enc_value cfg_now ev c b) end) l) = Some ws
+    /\ seq_opt (map (fun kv => match kv with (a, b) => pair_opt (dec_wire cfg_now a) (dec_wire cfg_now b) end) ws)
        = Some (map (fun kv => match kv with (a, b) => (exp_value a, exp_value b) end) l).
 Proof. induction 1 as [|[a b] r [(wa & A1 & A2) (wb & B1 & B2)] Hr (ws & F1 & F2)]. exists []. split; reflexivity.
   cbn [fst snd] in *. exists ((wa, wb) :: ws). cbn [map seq_opt]. rewrite A1, B1. cbn [pair_opt]. rewrite F1.
   cbn [map seq_opt]. rewrite A2, B2. cbn [pair_opt]. rewrite F2. split; reflexivity. Qed.
 
-(* C15, model level: for every well-formed value, every nesting depth and every compress setting, deserialising the
-   serialised form succeeds and gives the expected image of the value *)
-Theorem roundtrip_value : forall v cm, wfv (is_default cm) v -> roundtrip ev cm v = Some (exp_value v).
+(* C15, model level, for the code as it is now: for every well-formed value, every nesting depth and every way of
+   passing `compress`, deserialising the serialised form succeeds and gives the expected image of the value *)
+Theorem roundtrip_value : forall v cm, wfv v -> roundtrip cfg_now ev cm v = Some (exp_value v).
 Proof.
-  assert (A : forall v cm, wfv (is_default cm) v -> G cm v).
+  assert (A : forall v cm, wfv v -> G cm v).
   { induction v as [v Hc|l IH|l IH] using value_ind'; intros cm Hw.
     - apply G_leaf; assumption.
     - assert (F : Forall (G (child cm)) l).
@@ -757,45 +717,63 @@ Theorem enc_svd_close d : Forall2 (fun x y => qclose (snd x) (snd y) /\
 Proof. induction d as [|[v p] t IH]; constructor. split. apply sf_close. apply enc_sv_close. exact IH. Qed.
 End Val.
 
-(* ------------------------------------------------------------------ where the current code loses information *)
+(* ------------------------------------------------------------------ where the code loses / lost information *)
 Definition ev0 : str -> Qc := fun _ => 1%Qc.
 Definition q (n : Z) (d : positive) : Qc := Q2Qc (n # d).
 Definition one : qi := mkqi 1 0.
 Definition zero : qi := mkqi 0 0.
-Definition exp0 (m : Z) : experiment := mkexp [69] m 0 None None None None [] [] (repeat None (Z.to_nat m)) [].
 Definition ps_a : comp := CLeaf KPS [PVar [97] None; PFix 0].
 
-Theorem filter_zero_refuted : exists e d, e_filter e = Some 0 /\
-  roundtrip ev0 CDefault (VExperiment e) = Some (DVExperiment d) /\ de_filter d = None.
-Proof. eexists (mkexp [69] 2 0 None None (Some 0) None [] [] [None; None] []), _. split. reflexivity. split.
-  vm_compute. reflexivity. reflexivity. Qed.
-Theorem unitary_name_refuted : exists u name, name <> UNITARY /\ name <> [] /\
-  roundtrip ev0 CDefault (VCircuit (CUnit u name false)) = Some (DVCircuit (DSub CPLX 1 [(0, DUnit u UNITARY false)])).
-Proof. exists [[one]], [77; 89; 85]. split. discriminate. split. discriminate. vm_compute. reflexivity. Qed.
-Theorem polarized_unitary_refuted : exists u, rect u /\ roundtrip ev0 CDefault (VCircuit (CUnit u UNITARY true)) = None.
-Proof. exists [[one; zero]; [zero; one]]. split. split. reflexivity. repeat constructor. vm_compute. reflexivity. Qed.
-Theorem detector_compress_keyword_refuted : exists d, wf_det d /\
-  roundtrip ev0 CDefault (VDet d) = Some (DVDet d) /\
-  (forall c, roundtrip ev0 (CKw c) (VDet d) = None) /\ roundtrip ev0 CDefault (VList [VDet d]) = None.
-Proof. exists (mkdet [80; 78; 82] None None). split. exact Logic.I. split. reflexivity. split. intros c. reflexivity. reflexivity. Qed.
+(* --- still true of the current code ([cfg_now]) *)
 Theorem defined_expression_refuted : exists e a v,
-  roundtrip ev0 CDefault (VCircuit (CLeaf KPS [PExpr e [(a, Some v)]; PFix 0]))
+  roundtrip cfg_now ev0 CDefault (VCircuit (CLeaf KPS [PExpr e [(a, Some v)]; PFix 0]))
   = Some (DVCircuit (DSub CPLX 1 [(0, DLeaf KPS [DVar ([], e, Some (ev0 e)); DFix 0])])).
 Proof. exists [50; 42; 97], [97], (q 1 2). vm_compute. reflexivity. Qed.
-Theorem nested_first_refuted : exists c, wf_comp (fun _ => None) c /\ roundtrip ev0 CDefault (VCircuit c) = None.
-Proof. exists (CSub CPLX 2 [(0, CSub [115] 2 [(0, ps_a)]); (0, ps_a)]). split.
-  - cbn. repeat split; try discriminate; try lia; repeat constructor; try discriminate.
-  - vm_compute. reflexivity. Qed.
-Theorem nested_first_experiment_refuted : exists e d o1 o2,
-  roundtrip ev0 CDefault (VExperiment e) = Some (DVExperiment d) /\
-  de_comps d = [(0, DSub [115] 2 [(0, DLeaf KPS [DVar o1; DFix 0])]); (0, DLeaf KPS [DVar o2; DFix 0])] /\
-  o_name o1 = o_name o2 /\ o_scope o1 <> o_scope o2.
-Proof. eexists (mkexp [69] 2 0 None None None None [] [] [None; None] [(0, CSub [115] 2 [(0, ps_a)]); (0, ps_a)]), _, _, _.
-  split. vm_compute. reflexivity. split. reflexivity. split. reflexivity. discriminate. Qed.
 Theorem one_sided_herald_refuted : exists e d, e_out e = [(1, AHerald 1 (Some [104]))] /\ e_in e = [] /\
-  roundtrip ev0 CDefault (VExperiment e) = Some (DVExperiment d) /\ de_out d = [].
+  roundtrip cfg_now ev0 CDefault (VExperiment e) = Some (DVExperiment d) /\ de_out d = [].
 Proof. eexists (mkexp [69] 2 0 None None None None [] [(1, AHerald 1 (Some [104]))] [None; None] []), _.
   split. reflexivity. split. reflexivity. split. vm_compute. reflexivity. reflexivity. Qed.
-Theorem same_expression_twice_refuted : exists e a, 
-  roundtrip ev0 CDefault (VCircuit (CLeaf (KBS 0) [PExpr e [(a, None)]; PExpr e [(a, None)]; PFix 0; PFix 0; PFix 0])) = None.
+Theorem same_expression_twice_refuted : exists e a,
+  roundtrip cfg_now ev0 CDefault (VCircuit (CLeaf (KBS 0) [PExpr e [(a, None)]; PExpr e [(a, None)]; PFix 0; PFix 0; PFix 0])) = None.
 Proof. exists [50; 42; 98], [98]. vm_compute. reflexivity. Qed.
+
+(* --- statements about the code BEFORE the repairs ([cfg_old]); the same inputs now round-trip (see the _now lemmas) *)
+Definition exp_f0 : experiment := mkexp [69] 2 0 None None (Some 0) None [] [] [None; None] [].
+Theorem filter_zero_refuted_old_code : exists d,
+  roundtrip cfg_old ev0 CDefault (VExperiment exp_f0) = Some (DVExperiment d) /\ de_filter d = None.
+Proof. eexists. split. vm_compute. reflexivity. reflexivity. Qed.
+Theorem filter_zero_now : exists d,
+  roundtrip cfg_now ev0 CDefault (VExperiment exp_f0) = Some (DVExperiment d) /\ de_filter d = Some 0.
+Proof. eexists. split. vm_compute. reflexivity. reflexivity. Qed.
+
+Theorem unitary_name_refuted_old_code : exists u name, name <> UNITARY /\ name <> [] /\
+  roundtrip cfg_old ev0 CDefault (VCircuit (CUnit u name false)) = Some (DVCircuit (DSub CPLX 1 [(0, DUnit u UNITARY false)])).
+Proof. exists [[one]], [77; 89; 85]. split. discriminate. split. discriminate. vm_compute. reflexivity. Qed.
+Definition id2 : list (list qi) := [[one; zero]; [zero; one]].
+Theorem polarized_unitary_refuted_old_code : rect id2 /\ roundtrip cfg_old ev0 CDefault (VCircuit (CUnit id2 UNITARY true)) = None.
+Proof. split. split. reflexivity. repeat constructor. vm_compute. reflexivity. Qed.
+Theorem unitary_name_polarization_now :
+  roundtrip cfg_now ev0 CDefault (VCircuit (CUnit id2 [77; 89; 85] true))
+  = Some (DVCircuit (DSub CPLX 1 [(0, DUnit id2 [77; 89; 85] true)])).
+Proof. vm_compute. reflexivity. Qed.
+
+Definition pnr : detector := mkdet [80; 78; 82] None None.
+Theorem detector_compress_keyword_refuted_old_code :
+  (forall c, roundtrip cfg_old ev0 (CKw c) (VDet pnr) = None) /\ roundtrip cfg_old ev0 CDefault (VList [VDet pnr]) = None.
+Proof. split. intros c. reflexivity. reflexivity. Qed.
+Theorem detector_compress_keyword_now :
+  (forall c, roundtrip cfg_now ev0 (CKw c) (VDet pnr) = Some (DVDet pnr)) /\
+  roundtrip cfg_now ev0 CDefault (VList [VDet pnr]) = Some (DVList [DVDet pnr]).
+Proof. split. intros c. reflexivity. reflexivity. Qed.
+
+Definition nested_first : comp := CSub CPLX 2 [(0, CSub [115] 2 [(0, ps_a)]); (0, ps_a)].
+Theorem nested_first_refuted_old_code : roundtrip cfg_old ev0 CDefault (VCircuit nested_first) = None.
+Proof. vm_compute. reflexivity. Qed.
+Theorem nested_first_now : roundtrip cfg_now ev0 CDefault (VCircuit nested_first) = Some (DVCircuit (inj nested_first)).
+Proof. vm_compute. reflexivity. Qed.
+Definition exp_nf : experiment := mkexp [69] 2 0 None None None None [] [] [None; None] [(0, CSub [115] 2 [(0, ps_a)]); (0, ps_a)].
+Theorem nested_first_experiment_refuted_old_code : exists d o1 o2,
+  roundtrip cfg_old ev0 CDefault (VExperiment exp_nf) = Some (DVExperiment d) /\
+  de_comps d = [(0, DSub [115] 2 [(0, DLeaf KPS [DVar o1; DFix 0])]); (0, DLeaf KPS [DVar o2; DFix 0])] /\
+  o_name o1 = o_name o2 /\ o_scope o1 <> o_scope o2.
+Proof. eexists _, _, _. split. vm_compute. reflexivity. split. reflexivity. split. reflexivity. discriminate. Qed.
